@@ -21,7 +21,8 @@ WHITELIST (constructs translated as "creates a new object" = SAlloc, with the ju
   W8  dataclasses.replace(c, ...)                                -- returns a new dataclass instance
   W9  self.F[k] where F is only ever assigned `defaultdict(set|list|dict)` and never stored into by subscript
       assignment in its class (checked on every run)             -- the values are created by the default factory
-  SITE_WHITELIST below: three statements, each with a justification whose mechanical part is re-checked on every run
+  W10 the parameters *args / **kwargs                            -- Python builds a new tuple / dict for every call
+  SITE_WHITELIST below: four statements, each with a justification whose mechanical part is re-checked on every run
 ALIAS-PRESERVING (result has the class of the receiver): x.new_child(), x.parents (ChainMap views onto the same
   maps), ChainMap(x, ...) (wraps x: writes go to x).
 DENIED (exit != 0): exec/eval/globals/locals/vars/__setattr__/__setitem__/__delitem__/__iadd__ .../operator.* setters,
@@ -43,6 +44,7 @@ DEFAULT_FILES = [
     "src/exo/rewrite/LoopIR_scheduling.py",
     "src/exo/core/internal_cursors.py",
     "src/exo/core/LoopIR.py",
+    "src/exo/API_scheduling.py",   # argument processors: they are handed the caller's own lists
 ]
 
 MUTATORS = {
@@ -84,6 +86,10 @@ SITE_WHITELIST = {
     ("LoopIR_scheduling.py", "CheckFoldBuffer.update_access_window_within_s", "self.access_window_within_s BitOr= ..."):
         "access_window_within_s is None or an IndexRange (no __ior__): `|=` re-binds the field to a new IndexRange; checked: "
         "class IndexRange has no __ior__",
+    ("API_scheduling.py", "AtomicSchedulingOp.__call__", "bargs[...] = ..."):
+        "bargs is `bound_args.arguments`, the dict inside the BoundArguments object that inspect.Signature.bind has just "
+        "created for this call (it holds the caller's values but is not the caller's object); checked: in this function "
+        "bound_args is only assigned from self.sig.bind(...) and bargs only from bound_args.arguments",
     ("LoopIR.py", "Alpha_Rename.__init__", "self.node Add= ..."):
         "`self.node += ...` only runs in the else-branch of __init__, where self.node is the list literal assigned two lines "
         "above (the other branch assigns the result of apply_proc and never extends it); no other method assigns self.node; "
@@ -186,6 +192,30 @@ class Translator:
             for n in ast.walk(tree):
                 if isinstance(n, ast.ClassDef) and n.name == "IndexRange":
                     return not any(isinstance(m, ast.FunctionDef) and m.name in ("__ior__",) for m in n.body)
+            return False
+        if qual == "AtomicSchedulingOp.__call__":
+            for ci in self.classes.get("AtomicSchedulingOp", []):
+                fn = ci.methods.get("__call__", [None])[0]
+                if fn is None:
+                    return False
+                for n in ast.walk(fn.node):
+                    if isinstance(n, ast.Assign):
+                        for t in n.targets:
+                            if isinstance(t, ast.Name) and t.id == "bound_args":
+                                v = n.value
+                                if not (isinstance(v, ast.Call) and ast.unparse(v.func) == "self.sig.bind"):
+                                    return False
+                            if isinstance(t, ast.Name) and t.id == "bargs":
+                                if ast.unparse(n.value) != "bound_args.arguments":
+                                    return False
+                            if isinstance(t, (ast.Tuple, ast.List)) and any(
+                                    isinstance(x, ast.Name) and x.id in ("bargs", "bound_args") for x in ast.walk(t)):
+                                return False
+                    if isinstance(n, (ast.AugAssign, ast.NamedExpr, ast.For, ast.With)) and any(
+                            isinstance(x, ast.Name) and x.id in ("bargs", "bound_args") and isinstance(x.ctx, ast.Store)
+                            for x in ast.walk(n)):
+                        return False
+                return True
             return False
         if qual == "Alpha_Rename.__init__":
             for ci in self.classes.get("Alpha_Rename", []):
@@ -681,6 +711,12 @@ class FuncTranslator:
         sc = self.sc
         for p in sc.params:
             sc.local(p)
+        # W10: *args / **kwargs are a new tuple / dict built by the call itself
+        a = sc.node.args
+        for va in (a.vararg, a.kwarg):
+            if va is not None:
+                self.tr.wl("W10:*args/**kwargs")
+                self.alloc(("L", sc.locals[va.arg]), ("ALit", []))
         # parameters captured in 'global' mode are copied into their global at entry
         for p in sc.params:
             if self.tr.capture_mode(sc, p) == "global":
@@ -877,7 +913,9 @@ class FuncTranslator:
         elif t is ast.Subscript:
             base = self.var(self.expr(tg.value))
             self.slice_effects(tg.slice)
-            self.mut(st, "MSetItem", base, self.elem(op), "%s[...] = ..." % src_of(tg.value))
+            text = "%s[...] = ..." % src_of(tg.value)
+            if not self.site_ok(st, text):
+                self.mut(st, "MSetItem", base, self.elem(op), text)
         elif t is ast.Attribute:
             if self.is_self(tg.value):
                 ref = self.field(self.self_class(tg.value), tg.attr)
